@@ -8,6 +8,7 @@ import (
 	"math/rand"
 	"os"
 	"os/exec"
+	"reflect"
 	"sort"
 	"strings"
 
@@ -32,10 +33,82 @@ func init() { register("C13", runC13, replayC13, 200) }
 type modelSnap struct {
 	clone *openfgav1.AuthorizationModel
 	ptrs  []*openfgav1.TypeDefinition
+	shape string
 }
 
 func snapModel(m *openfgav1.AuthorizationModel) modelSnap {
-	return modelSnap{proto.Clone(m).(*openfgav1.AuthorizationModel), append([]*openfgav1.TypeDefinition{}, m.GetTypeDefinitions()...)}
+	return modelSnap{proto.Clone(m).(*openfgav1.AuthorizationModel), append([]*openfgav1.TypeDefinition{}, m.GetTypeDefinitions()...), goShape(m)}
+}
+
+// goShape: the caller's object graph as Go sees it - every exported field reachable from the model, with the
+// address of every pointer, the address / length / capacity of every slice, nil-ness of pointers, slices, maps and
+// oneof wrappers, and all scalar values. Writes that protobuf equality cannot see (a nil payload replaced by an
+// empty message, an element replaced by an equal copy, a nil slice made empty) change it. Unexported fields (size
+// cache, unknown fields, message state) are runtime bookkeeping and are left out.
+func goShape(m *openfgav1.AuthorizationModel) string {
+	var sb strings.Builder
+	shapeOf(reflect.ValueOf(m), &sb, 0)
+	return sb.String()
+}
+
+func shapeOf(v reflect.Value, sb *strings.Builder, depth int) {
+	if depth > 400 {
+		sb.WriteString("<deep>")
+		return
+	}
+	switch v.Kind() {
+	case reflect.Ptr:
+		if v.IsNil() {
+			sb.WriteString("nil;")
+			return
+		}
+		fmt.Fprintf(sb, "&%x{", v.Pointer())
+		shapeOf(v.Elem(), sb, depth+1)
+		sb.WriteString("}")
+	case reflect.Interface:
+		if v.IsNil() {
+			sb.WriteString("nilif;")
+			return
+		}
+		sb.WriteString(v.Elem().Type().String() + ":")
+		shapeOf(v.Elem(), sb, depth+1)
+	case reflect.Struct:
+		t := v.Type()
+		for i := 0; i < v.NumField(); i++ {
+			if t.Field(i).PkgPath != "" {
+				continue
+			}
+			sb.WriteString(t.Field(i).Name + "=")
+			shapeOf(v.Field(i), sb, depth+1)
+		}
+	case reflect.Slice:
+		if v.IsNil() {
+			sb.WriteString("nilslice;")
+			return
+		}
+		fmt.Fprintf(sb, "[%x/%d/%d:", v.Pointer(), v.Len(), v.Cap())
+		for i := 0; i < v.Len(); i++ {
+			shapeOf(v.Index(i), sb, depth+1)
+		}
+		sb.WriteString("]")
+	case reflect.Map:
+		if v.IsNil() {
+			sb.WriteString("nilmap;")
+			return
+		}
+		keys := v.MapKeys()
+		sort.Slice(keys, func(i, j int) bool { return fmt.Sprint(keys[i]) < fmt.Sprint(keys[j]) })
+		fmt.Fprintf(sb, "map%d{", len(keys))
+		for _, k := range keys {
+			fmt.Fprintf(sb, "%q:", fmt.Sprint(k))
+			shapeOf(v.MapIndex(k), sb, depth+1)
+		}
+		sb.WriteString("}")
+	case reflect.String:
+		fmt.Fprintf(sb, "%q;", v.String())
+	default:
+		fmt.Fprintf(sb, "%v;", v.Interface())
+	}
 }
 
 func (s modelSnap) changed(m *openfgav1.AuthorizationModel) string {
@@ -49,6 +122,14 @@ func (s modelSnap) changed(m *openfgav1.AuthorizationModel) string {
 	}
 	if !proto.Equal(s.clone, m) {
 		return "model content changed"
+	}
+	if now := goShape(m); now != s.shape {
+		i := 0
+		for i < len(now) && i < len(s.shape) && now[i] == s.shape[i] {
+			i++
+		}
+		lo := max(0, i-120)
+		return fmt.Sprintf("the caller's object graph was written to although it is still equal as a protobuf message (nil payload filled in, element replaced by a copy, slice re-allocated ...): before ...%s, after ...%s", s.shape[lo:min(len(s.shape), i+80)], now[lo:min(len(now), i+80)])
 	}
 	return ""
 }
